@@ -450,9 +450,66 @@ def pbc(loc, N, states, acc, case_base):
     if not close(M, ref):
         acc.fail(dict(case_base, expr='MpoPBC.to_tensor'), "MpoPBC.to_tensor differs from the trace over the virtual ring")
         return
+    # a second periodic MPO made of the tensors of a generated open-boundary MPO of a translationally invariant ring
+    # Hamiltonian (virtual legs as generate_mpo builds them, which zipper needs):  sum_n -z_n - 0.7 x_n x_{n+1 mod N}
+    st, H2 = TC.call(lambda: _ring_mpo(loc, N))
+    if st == 'ok':
+        spaces = [loc.space] * N
+        ref2 = sum(-1.0 * JW.jw(O['z'], n, spaces, loc.config) - 0.7 * JW.jw(O['x'], n, spaces, loc.config) @ JW.jw(O['x'], (n + 1) % N, spaces, loc.config)
+                   for n in range(N))
+        st, M2 = TC.call(lambda: JW.mpo_like_to_matrix(H2.to_tensor(), spaces))
+        acc.transitions += 1
+        if st != 'ok' or not close(M2, ref2):
+            acc.fail(dict(case_base, expr='MpoPBC(ring).to_tensor'), f"periodic MPO built from generate_mpo tensors differs from the ring Hamiltonian ({st})")
+        else:
+            H, ref = H2, ref2
     for (nv, v, dv) in [(n, x_, d) for n, x_, d in states if x_.nr_phys == 1][:4]:
         _num(acc, case_base, f'<{nv}|H_pbc|{nv}>', lambda v=v: mps.measure_mpo(v, H, v), np.vdot(dv, ref @ dv))
+        # scalar multiples of the periodic MPO (the scalar lives in .factor) and their application by zipper / @
+        for c in (2.5, -0.5, 1):
+            Hc = c * H
+            st, Tc = TC.call(lambda: JW.mpo_like_to_matrix(Hc.to_tensor(), [loc.space] * N))
+            acc.transitions += 1
+            if st != 'ok' or not close(Tc, c * ref):
+                acc.fail(dict(case_base, expr=f'{c}*H_pbc'), f"{c} * H_pbc: to_tensor differs from the scaled ring operator ({st})")
+                continue
+            _num(acc, case_base, f'<{nv}|{c}*H_pbc|{nv}>', lambda v=v, Hc=Hc: mps.measure_mpo(v, Hc, v), c * np.vdot(dv, ref @ dv))
+            if np.linalg.norm(ref @ dv) < 1e-9:
+                continue
+            for nz in (False, True):
+                st, w = TC.call(lambda: mps.zipper(Hc, v, opts_svd={'tol': 1e-14}, normalize=nz))
+                acc.transitions += 1
+                if st == 'yerr':
+                    acc.cnt['pbc_zipper_rejected'] += 1
+                    continue
+                if st != 'ok':
+                    acc.fail(dict(case_base, expr=f'zipper({c}*H_pbc, {nv}, normalize={nz})'), f"zipper({c}*H_pbc, {nv}, normalize={nz}): {st}: {w}")
+                    continue
+                dw = MG.dense_of(w, loc)
+                target = c * (ref @ dv)
+                if nz:
+                    target = target / np.linalg.norm(target)
+                    # normalize=True fixes the vector up to nothing but its norm
+                acc.cnt['pbc_zipper'] += 1
+                if not close(dw, target, scale=max(1.0, float(np.abs(target).max()))):
+                    acc.fail(dict(case_base, expr=f'zipper({c}*H_pbc, {nv}, normalize={nz})'),
+                             f"zipper({c}*H_pbc, {nv}, normalize={nz}): dense vector differs from ({c} H) v{' / |.|' if nz else ''} "
+                             f"(max diff {np.abs(dw - target).max():.3e})")
     acc.cnt['pbc_checked'] += 1
+
+
+def _ring_mpo(loc, N):
+    O = loc.O
+    terms = []
+    for n in range(N):
+        terms.append(mps.Hterm(-1.0, [n], [O['z']]))
+        terms.append(mps.Hterm(-0.7, [n, (n + 1) % N], [O['x'], O['x']]))
+    Hobc = mps.generate_mpo(loc.I_mpo(N), terms)
+    H = mps.Mpo(N, periodic=True)
+    dn = N // 2
+    for n in range(N):
+        H[(n + dn) % N] = Hobc[n].copy()
+    return H
 
 
 def rejections(loc, N, states, acc, case_base):
